@@ -271,6 +271,10 @@ impl Monitor for C05 {
                 v.push(format!("shape:{r}:{c}"));
             }
         }
+        // beyond the exhaustive 0..=12 range: long vectors and sizes around 30/31 and 255/256
+        for (r, c) in [(1, 40), (40, 1), (30, 31), (31, 30), (31, 31), (2, 255), (256, 2), (64, 64)] {
+            v.push(format!("shape:{r}:{c}"));
+        }
         for i in 0..tier.pick(10_000, 200_000) {
             v.push(format!("rndm:{i}"));
         }
